@@ -99,7 +99,7 @@ def run_sync(rec, cfg, given, calls, plan):
     a = rec.n
     st = {"engine": "A5", "clock": 1}
     holder = {}
-    api = apidrv.SyncApi(rec, cfg, lambda req: holder["r"](req), timeout=0.15, engine_given=given)
+    api = apidrv.SyncApi(rec, cfg, lambda req: holder["r"](req), timeout=0.3, engine_given=given)
     holder["r"] = make_responder(st, api.cfgref, plan)
     s = api.session
     for c in calls:
@@ -130,7 +130,7 @@ async def run_async(rec, cfg, given, calls, plan):
     a = rec.n
     st = {"engine": "A5", "clock": 1}
     holder = {}
-    api = await apidrv.AsyncApi.create(rec, cfg, lambda req: holder["r"](req), timeout=0.15, engine_given=given)
+    api = await apidrv.AsyncApi.create(rec, cfg, lambda req: holder["r"](req), timeout=0.3, engine_given=given)
     holder["r"] = make_responder(st, api.cfgref, plan)
     s = api.session
     op = "get"
